@@ -1,2 +1,3 @@
 From Typ Require Export Avl.Check.
-Definition check_case := check_exact.
+(* exact outputs (walks included: the shape), and exact comparator-call counts where recorded *)
+Definition check_case (c : case) : bool := check_exact c && check_calls c.
